@@ -276,6 +276,39 @@ def body(chk):
     from harness import sessioncheck
 
     sessioncheck.standard(chk)
+    # ---- crash at every system-call boundary of the recorded writers (design-agnostic), traces validated by TLC (Trace_CacheSys)
+    from harness import syscrash
+
+    stasks = [dict(level=lv, seed=chk.seed + 300 + i, producer=pr, pre=pre) for i, (lv, pr, pre) in enumerate(
+        [("1.5", "option", "empty"), ("1.1", "option", "torn"), ("1.5", "cli", "empty"), ("1.1", "option-default", "torn"), ("1.5", "cli", "torn"),
+         ("1.1", "cli", "complete"), ("1.5", "option", "complete")])]
+    sres = checklib.pmap(syscrash.scenario, stasks, chk.scratch)
+    spath = os.path.join(chk.scratch, "cachesys.ndjson")
+    with open(spath, "w") as f:
+        for i, res in enumerate(sres):
+            for ln in res["lines"]:
+                if ln["e"] == "hdr":
+                    ln["tid"] = i + 1
+                f.write(json.dumps(ln) + "\n")
+    if any(res["lines"] for res in sres):
+        rs = tlc.run_ok("Trace_CacheSys", "Trace_CacheSys", workers=1, env={"TRACE_FILE": spath})
+        chk.tlc_stats(rs)
+        import re as _re
+
+        for m in _re.finditer(r'<<"VERDICT", (\d+), "(\w+)", (\d+), "([^"]*)">>', rs.out):
+            if m.group(2) == "rejected":
+                t = sres[int(m.group(1)) - 1]["task"]
+                chk.note(f"DRIFT (writer at system-call grain, {t['producer']}): {m.group(4)} at line {m.group(3)} -- the writer no longer follows Trunc ; WriteBlk* "
+                         "(informational: the crash states below are derived from what it really does)")
+    nstates = 0
+    for res in sres:
+        t = res["task"]
+        nstates += res["states"]
+        chk.count(res["states"], f"syscall-crash:{t['producer']}:{t['pre']}")
+        for what, msg in res["bad"][:3]:
+            chk.violation(f"syscall-crash:{what.split(':')[0]}:{t['producer']}", msg, {"task": t, "state": res.get("first_bad_state")})
+    chk.traces(len(sres))
+    chk.sample({"syscall_crash": [dict(res["task"], calls=res["calls"], crash_states=res["states"]) for res in sres[:3]]})
     chk.finish(rule="crash points = prefix lengths of the real index document (quick: structural boundaries +-1 + 24 evenly spaced; thorough: every byte) x "
                     "{local, adjacent, both} x 4 filesystems x 2 levels, each followed by default open / create_cache / use_cache; + real interrupted "
                     "writers (file-size limit, SIGKILL, strace-held writer with concurrent reader and second writer, racing writers); distinct = "
